@@ -9,6 +9,7 @@ import (
 	"strings"
 	"testing"
 
+	"github.com/go-openapi/loads"
 	"github.com/go-openapi/spec"
 	"github.com/go-openapi/validate"
 	"pgregory.net/rapid"
@@ -49,6 +50,10 @@ type Case struct {
 	// Simple is an array-typed simple schema (items carry a format of the fuse registry), used as a parameter and as a header
 	Simple string   `json:"simple,omitempty"`
 	Values []string `json:"values,omitempty"`
+	// Docs are small specifications whose defaults and examples carry formats of the fuse registry: the first one is
+	// validated with the fuse armed, then all of them, by the same SpecValidator object and by fresh ones
+	Docs         []string `json:"docs,omitempty"`
+	DocsContinue bool     `json:"docs_continue,omitempty"`
 }
 
 var formats = []string{"evenlen", "starts-a", "always", "upper-case", "never"}
@@ -185,7 +190,58 @@ func genCase(t *rapid.T) Case {
 	perm := rapid.Permutation(pairs).Draw(t, "probeorder")
 	c.Probes = perm
 	c.Scribble = rapid.SampledFrom([]string{"off", "zero", "poison"}).Draw(t, "scribble")
+	if gen.UniformIndex(t, 64, "withdocs") == 0 {
+		c.DocsContinue = rapid.Bool().Draw(t, "docscontinue")
+		nd := 2 + gen.UniformIndex(t, 2, "ndocs")
+		for i := 0; i < nd; i++ {
+			c.Docs = append(c.Docs, gen.Text(formattedDoc(t, i > 0)))
+		}
+	}
 	return c
+}
+
+// formattedDoc builds a small specification with formatted string defaults / examples on a query parameter, a
+// response header, a response schema and a definition; later documents may also break a structural rule
+// (an array without items, items without type array), which must still be reported after a fault.
+func formattedDoc(t *rapid.T, mayBreak bool) map[string]any {
+	val := func() string { return rapid.SampledFrom([]string{"a", "ab", "abc", "B", ""}).Draw(t, "docvalue") }
+	fstr := func() map[string]any {
+		m := map[string]any{"type": "string", "format": rapid.SampledFrom(formats).Draw(t, "docformat")}
+		if rapid.Bool().Draw(t, "withdefault") {
+			m["default"] = val()
+		}
+		return m
+	}
+	fschema := func() map[string]any {
+		m := fstr()
+		if rapid.Bool().Draw(t, "withexample") {
+			m["example"] = val()
+		}
+		return m
+	}
+	param := fstr()
+	param["name"], param["in"] = "q", "query"
+	arrParam := map[string]any{"name": "l", "in": "query", "type": "array", "items": fstr(), "default": []any{val(), val()}}
+	thing := map[string]any{"type": "object", "properties": map[string]any{"s": fschema(), "n": map[string]any{"type": "integer", "default": gen.Number(1)}}}
+	if mayBreak {
+		switch gen.UniformIndex(t, 3, "dockind") {
+		case 0:
+			thing["properties"].(map[string]any)["list"] = map[string]any{"type": "array"}
+		case 1:
+			thing["properties"].(map[string]any)["odd"] = map[string]any{"type": "object", "items": map[string]any{"type": "string"}}
+		}
+	}
+	return map[string]any{
+		"swagger": "2.0", "info": map[string]any{"title": "t", "version": "1"},
+		"paths": map[string]any{"/p": map[string]any{"get": map[string]any{
+			"operationId": "op",
+			"parameters":  []any{param, arrParam},
+			"responses": map[string]any{"200": map[string]any{"description": "ok",
+				"headers": map[string]any{"X-F": fstr()},
+				"schema":  map[string]any{"type": "object", "properties": map[string]any{"r": fschema(), "t": map[string]any{"$ref": "#/definitions/Thing"}}}}},
+		}}},
+		"definitions": map[string]any{"Thing": thing},
+	}
 }
 
 type fuse struct {
@@ -352,9 +408,98 @@ func check(c Case) (out ev.Outcome) {
 			}
 		}
 	}
+	// 4. specifications: the first document is validated with the fuse armed at each checker invocation it reaches;
+	// afterwards every document is validated by that same validator object and by a fresh one
+	specPoints := 0
+	if len(c.Docs) > 0 {
+		load := func(i int) *loads.Document {
+			d, err, pmsg := obs.LoadDoc([]byte(c.Docs[i]))
+			if err != nil || pmsg != "" {
+				return nil
+			}
+			return d
+		}
+		for _, cont := range []bool{c.DocsContinue} {
+			validateWith := func(v *validate.SpecValidator, i int) obs.Outcome {
+				d := load(i)
+				if d == nil {
+					return obs.Outcome{Panic: "harness: document does not load"}
+				}
+				var o obs.Outcome
+				msg, st := obs.Guard(func() {
+					if v == nil {
+						v = validate.NewSpecValidator(d.Schema(), registry)
+						v.SetContinueOnErrors(cont)
+					}
+					errs, _ := v.Validate(d)
+					o = obs.FromResult(errs)
+				})
+				if msg != "" {
+					return obs.Outcome{Panic: msg, Stack: st}
+				}
+				return o
+			}
+			var aloneDoc []obs.Outcome
+			for i := range c.Docs {
+				hook.SetRedeemHook(nil)
+				hook.ResetPools()
+				f.count, f.at = 0, 0
+				o := validateWith(nil, i)
+				if o.Panic != "" {
+					out.Excluded = append(out.Excluded, "a generated specification panics or does not load without any injected fault")
+					hook.ResetPools()
+					return out
+				}
+				aloneDoc = append(aloneDoc, o)
+				if i == 0 {
+					specPoints = f.count
+				}
+			}
+			// three fault points per document (each validation re-checks the whole document against the Swagger schema)
+			ks := map[int]bool{1: true, (specPoints + 1) / 2: true, specPoints: true}
+			for k := 1; k <= specPoints; k++ {
+				if !ks[k] {
+					continue
+				}
+				hook.ResetPools()
+				setScribble()
+				d0 := load(0)
+				v := validate.NewSpecValidator(d0.Schema(), registry)
+				v.SetContinueOnErrors(cont)
+				f.count, f.at, f.fired = 0, k, false
+				if got := validateWith(v, 0); f.fired && got.Panic != fusePanic {
+					return ev.Failf("specification, k=%d: the injected panic did not reach the caller as such: %s", k, got)
+				}
+				if f.fired {
+					firedRuns++
+				}
+				f.at = 0
+				for round := 0; round < 1; round++ {
+					for r := range c.Docs {
+						// another document comes first after each fault point: a complete validation may repair
+						// what the aborted one left behind
+						i := (r + k) % len(c.Docs)
+						for _, same := range []bool{true, false} {
+							var got obs.Outcome
+							if same {
+								got = validateWith(v, i)
+							} else {
+								got = validateWith(nil, i)
+							}
+							if !got.Same(aloneDoc[i]) {
+								return ev.Failf("specification %d validated after a checker panic at invocation %d of the validation of specification 0 (continue-on-errors=%v, same validator object=%v, scribble %s) returns %s; in a fresh process it returns %s [%s]",
+									i, k, cont, same, c.Scribble, got, aloneDoc[i], obs.ShortStack(got.Stack))
+							}
+						}
+					}
+				}
+			}
+		}
+		out.Classes = append(out.Classes, "with-specifications")
+	}
 	hook.SetRedeemHook(nil)
 	hook.ResetPools()
-	out.Counters = map[string]int64{"fault_points_enumerated": int64(n), "runs_in_which_the_fuse_fired": int64(firedRuns)}
+	out.Counters = map[string]int64{"fault_points_enumerated": int64(n), "runs_in_which_the_fuse_fired": int64(firedRuns), "fault_points_in_specifications": int64(specPoints)}
 	out.Classes = append(out.Classes, "scribble:"+c.Scribble, fmt.Sprintf("N:%s", bucket(n)), fmt.Sprintf("documented-panic-pairs:%v", documented > 0), fmt.Sprintf("unwind-depth>=2:%v", deepest >= 2))
 	out.Nontrivial = n >= 3 && deepest >= 2 && len(c.Probes) >= 3
 	return out
